@@ -132,6 +132,95 @@ Theorem C07_pqmr_tolerant_reader_refuted :
 Proof. exact pqmr_tolerant_reader_refuted. Qed.
 Print Assumptions C07_pqmr_tolerant_reader_refuted.
 
+(* ---- "the server dies during a METADATA REWRITE", over any number of process generations: segmeta.json is rewritten by
+   removeSegmetas (retention cleaner, index deletion, AddOrReplaceRotatedSegmeta: the kept entries go to segmeta.json.tmp,
+   opened with O_TRUNC, one write per entry, then rename) and extended by BulkAddRotatedSegmetas (rotation, start-up
+   adoption: one append).  The temporary file is part of the state: a process that dies inside a rewrite leaves it behind
+   with ANY content (complete lines; a torn line after a short write) and the next rewrite, after the restart, finds it.
+   [parse]/[enc] are json.Unmarshal/json.Marshal of one entry (premises: an encoded entry is one line, and parses back).
+   FULL STATEMENT: for every content of segmeta.json that the writer produced (entries m), EVERY temporary file, and every
+   sequence of rewrites each cut after any number k of its calls (process killed, restart, next rewrite ...), what a
+   restart loads from segmeta.json is exactly [spec_gens]: every removal all-or-nothing, nothing else changed. ---- *)
+From SigM Require Import SegmetaProto.
+From SigP Require Import SegmetaProtoProofs.
+Theorem C07_segmeta_rewrites_exact_over_generations :
+  forall (E : Type) (parse : bytes -> option E) (enc : E -> bytes) (key vt : E -> nat),
+  (forall e, ~ In 10%N (enc e)) -> (forall e, parse (drop_cr (enc e)) = Some e) ->
+  forall (gs : list (act E * nat)) (f : mfs) (m : option (list E)),
+  WF E enc f m ->
+  read_main E parse (run_gens E parse enc key vt f gs) = dflt [] (spec_gens E key vt m gs).
+Proof. exact gens_read. Qed.
+Print Assumptions C07_segmeta_rewrites_exact_over_generations.
+
+(* leftovers of an interrupted rewrite are never reused: the result does not depend on the temporary file found *)
+Theorem C07_segmeta_leftover_tmp_never_reused :
+  forall (E : Type) (parse : bytes -> option E) (enc : E -> bytes) (key vt : E -> nat),
+  (forall e, ~ In 10%N (enc e)) -> (forall e, parse (drop_cr (enc e)) = Some e) ->
+  forall (gs : list (act E * nat)) (c : option bytes) (t1 t2 : option bytes) (m : option (list E)),
+  c = option_map (file_of E enc) m ->
+  read_main E parse (run_gens E parse enc key vt {| mainf := c; tmpf := t1 |} gs) =
+  read_main E parse (run_gens E parse enc key vt {| mainf := c; tmpf := t2 |} gs).
+Proof. exact tmp_irrelevant. Qed.
+Print Assumptions C07_segmeta_leftover_tmp_never_reused.
+
+(* two generations spelled out: a removal r1 dies before its last call (k1 < number of its calls) on any temporary file t;
+   the restart loads what was there; a second removal r2 runs to its end: segmeta.json holds exactly the entries r2 keeps *)
+Theorem C07_segmeta_rewrite_after_interrupted_rewrite :
+  forall (E : Type) (parse : bytes -> option E) (enc : E -> bytes) (key vt : E -> nat),
+  (forall e, ~ In 10%N (enc e)) -> (forall e, parse (drop_cr (enc e)) = Some e) ->
+  forall (es : list E) (t : option bytes) (r1 : rm) (k1 : nat) (r2 : rm),
+  let f0 := {| mainf := Some (file_of E enc es); tmpf := t |} in
+  k1 < snd (abs_remove E key vt r1 (Some es)) ->
+  let f1 := mrun f0 (firstn k1 (remove_ops E parse enc key vt (mainf f0) r1)) in
+  let f2 := mrun f1 (remove_ops E parse enc key vt (mainf f1) r2) in
+  read_main E parse f1 = es /\
+  read_main E parse f2 = (if found E key vt r2 es then filter (keepb E key vt r2) es else es).
+Proof. exact rewrite_after_interrupted_rewrite. Qed.
+Print Assumptions C07_segmeta_rewrite_after_interrupted_rewrite.
+
+(* ... i.e. no deleted entry comes back and no live entry disappears *)
+Theorem C07_segmeta_no_resurrected_no_lost_entry :
+  forall (E : Type) (parse : bytes -> option E) (enc : E -> bytes) (key vt : E -> nat),
+  (forall e, ~ In 10%N (enc e)) -> (forall e, parse (drop_cr (enc e)) = Some e) ->
+  forall (es : list E) (t : option bytes) (r1 : rm) (k1 : nat) (r2 : rm),
+  let f0 := {| mainf := Some (file_of E enc es); tmpf := t |} in
+  k1 < snd (abs_remove E key vt r1 (Some es)) ->
+  let f1 := mrun f0 (firstn k1 (remove_ops E parse enc key vt (mainf f0) r1)) in
+  let f2 := mrun f1 (remove_ops E parse enc key vt (mainf f1) r2) in
+  forall e, In e (read_main E parse f2) <-> (In e es /\ (found E key vt r2 es = true -> targeted E key vt r2 e = false)).
+Proof. exact no_resurrected_no_lost_entry. Qed.
+Print Assumptions C07_segmeta_no_resurrected_no_lost_entry.
+
+(* The variants that keep an existing temporary file violate the property (entries "{d}"): (a) O_APPEND instead of O_TRUNC,
+   crashes at call boundaries only: the entry of a segment deleted by the second run is back; (b) the same with a torn
+   line in the temporary file: a deleted entry is back AND a live entry is swallowed by the glued line; (c) neither
+   O_TRUNC nor O_APPEND: the old tail stays behind the new lines.  The code (O_TRUNC) gives the specified result on the
+   same inputs. *)
+Theorem C07_segmeta_reuse_of_leftover_tmp_refuted :
+  let rd := read_main nat parse_d in
+  let es := [1; 2; 3; 4; 5] in
+  let main := Some (file_of nat enc_d es) in
+  rd (run_gens_gen nat parse_d enc_d id (fun _ => 0) false true {| mainf := main; tmpf := None |}
+        [(Remove nat (RmKeys [1]), 2); (Remove nat (RmKeys [1; 2]), 100)]) = [2; 3; 4; 5] /\
+  rd (mrun {| mainf := main; tmpf := Some (enc_d 2 ++ [10; 123; 51]%N) |}
+        (remove_ops_gen nat parse_d enc_d id (fun _ => 0) false true main (RmKeys [1; 2]))) = [2; 4; 5] /\
+  rd (run_gens_gen nat parse_d enc_d id (fun _ => 0) false false {| mainf := main; tmpf := None |}
+        [(Remove nat (RmKeys [1]), 5); (Remove nat (RmKeys [1; 2; 3]), 100)]) = [4; 5; 4; 5] /\
+  rd (run_gens nat parse_d enc_d id (fun _ => 0) {| mainf := main; tmpf := None |}
+        [(Remove nat (RmKeys [1]), 2); (Remove nat (RmKeys [1; 2]), 100)]) = [3; 4; 5] /\
+  rd (mrun {| mainf := main; tmpf := Some (enc_d 2 ++ [10; 123; 51]%N) |}
+        (remove_ops nat parse_d enc_d id (fun _ => 0) main (RmKeys [1; 2]))) = [3; 4; 5] /\
+  rd (run_gens nat parse_d enc_d id (fun _ => 0) {| mainf := main; tmpf := None |}
+        [(Remove nat (RmKeys [1]), 5); (Remove nat (RmKeys [1; 2; 3]), 100)]) = [4; 5].
+Proof. exact reuse_tmp_refuted. Qed.
+Print Assumptions C07_segmeta_reuse_of_leftover_tmp_refuted.
+
+(* the two premises about the encoding are satisfiable (that encoding) *)
+Theorem C07_segmeta_encoding_premises_satisfiable :
+  (forall e, ~ In 10%N (enc_d e)) /\ (forall e, parse_d (drop_cr (enc_d e)) = Some e).
+Proof. exact (conj enc_d_nl parse_enc_d). Qed.
+Print Assumptions C07_segmeta_encoding_premises_satisfiable.
+
 (* ---- the writer's call order, from the source: on EVERY path through AppendWipToSegfile and
    checkAndRotateColFiles (skeletons regenerated from /repo on every run by gotrans in calltrace mode, callees
    inlined; every branch possible, every loop any number of times) the block summary and the segment statistics
